@@ -464,6 +464,31 @@ def r9_mass_from_number_densities(idx, r):
                   msg="a return of Component.getMass does not depend on the component's number densities")
     if n < 6:
         raise AnalysisError(f"only {n} mass accessors found")
+    # Material.__init_subclass__ wraps every material's density(); Fluid.__init_subclass__ removes the wrapper again for the whole fluid
+    # family.  Code that reaches for `<material>.density.__wrapped__` therefore has to cope with its absence.
+    mat = idx.module("armi.materials.material")
+    wraps = [f for f in mat.all_funcs() if f.name == "__init_subclass__" and any((isinstance(x, ast.Attribute) and x.attr == "__wrapped__") or (isinstance(x, ast.Constant) and x.value == "__wrapped__") for x in ast.walk(f.node))]
+    if len(wraps) < 2:
+        raise AnchorMissing("Material.__init_subclass__ / Fluid.__init_subclass__ handling density.__wrapped__")
+    k = 0
+    for m in idx.modules.values():
+        if not m.name.startswith("armi.") or ".tests" in m.name:
+            continue
+        for f in m.all_funcs():
+            if f.name == "__init_subclass__":
+                continue
+            for x in walk_local(f.node):
+                if isinstance(x, ast.Attribute) and x.attr == "__wrapped__" and isinstance(x.value, ast.Attribute) and x.value.attr == "density":
+                    k += 1
+                    conds = " ".join(norm(t) for t, p in path_conditions(f.node, x) if p)
+                    r.require("hasattr(" in conds and "__wrapped__" in conds, f"{f.qualname}:density-wrapper-may-be-absent", f, node=x,
+                              msg=f"`{norm(x)}` assumes the parent-aware wrapper is there; every Fluid material has it removed, so a fluid component whose number densities are all zero "
+                                  "(a voided coolant) raises AttributeError from density() and from everything built on it (setMassFrac ...)")
+                if isinstance(x, ast.Call) and dotted(x.func) == "getattr" and len(x.args) == 3 and isinstance(x.args[1], ast.Constant) and x.args[1].value == "__wrapped__":
+                    k += 1
+                    r.ok(f"{f.qualname}:density-wrapper-may-be-absent", f, node=x)
+    if k < 1:
+        raise AnchorMissing("Component.density: fall-back through the material's unwrapped density")
 
 
 def r10_scaling_guard(idx, r):
@@ -513,7 +538,7 @@ def run(idx, chk):
                  necessary="density read back at block level = density set: sum over receivers of (N / sum vf) x vf = N")
     chk.run_rule("R02.8", "geometry-derived values are cached only at block level or below (where clearCache reaches)", lambda r: r8_cache_levels(idx, r), floor=1,
                  necessary="volume fractions / volumes served at assembly and core level are those of the children's current state")
-    chk.run_rule("R02.9", "mass accessors read the number densities and never the handbook-density fall-back", lambda r: r9_mass_from_number_densities(idx, r), floor=7,
+    chk.run_rule("R02.9", "mass accessors read the number densities and never the handbook-density fall-back", lambda r: r9_mass_from_number_densities(idx, r), floor=8,
                  necessary="mass = sum over nuclides of N x A x V / N_A at every level")
     chk.run_rule("R02.10", "Block.adjustDensity skips only densities that are zero; the skip never depends on the factor", lambda r: r10_scaling_guard(idx, r), floor=2,
                  necessary="scaling by a factor scales every listed nuclide, including factor 0")
